@@ -194,15 +194,28 @@ def r3_pause_resume(prog, rep: Report, pf: PoolFacts):
             other = iff.orelse if _contains_any(iff.body, n) else iff.body
             resume = [c for s in other for c in ast.walk(s) if isinstance(c, ast.Call) and isinstance(c.func, ast.Attribute)
                       and c.func.attr == "set" and dotted(c.func.value) == d]
+            # The paused feeder is resumed for sure only if the resume fires in the *drained* state: everything sent before the
+            # pause arrives eventually, the reorder buffer then empties completely (chunks are sent in order, so no gap stays open),
+            # and nothing else can change the state any more.  So the guards between the pause test and the set() are evaluated at
+            # len(buffer) = 0, event not set, for the bounds 1, 2, 3, 10 and 1000 (finite: the feeder is never paused under an infinite bound); sub-expressions over anything else are free atoms.
             guard_ok = True
+            guard_why = ""
             for c in resume:
-                g = _enclosing_if(c)
-                # `elif not ev.is_set(): ev.set()` is fine; any other guard must not depend on data
-                if g is not None and g is not iff and not ("is_set" in src(g.test)):
+                conds = []
+                ch, par = c, getattr(c, "_parent", None)
+                while par is not None and par is not iff:
+                    if isinstance(par, ast.If) and ch is not par.test:
+                        conds.append((par.test, ch in par.body))
+                    ch, par = par, getattr(par, "_parent", None)
+                bounds = {dotted(x) for x in ast.walk(iff.test) if isinstance(x, ast.Attribute) and dotted(x) and dotted(x)[0] == f.self_name}
+                bad = _drained_counterexample(conds, d, bounds)
+                if bad:
                     guard_ok = False
+                    guard_why = bad
             rep.check("C02.R3", f, f"resume:{ev}", bool(resume) and guard_ok,
-                      f"`{'.'.join(d)}.set()` on the branch where the pause condition is false",
-                      f"no `{'.'.join(d)}.set()` on the branch where the pause condition `{src(iff.test)}` is false",
+                      f"`{'.'.join(d)}.set()` on the branch where the pause condition is false, taken whenever the buffer has drained",
+                      (f"the resume `{'.'.join(d)}.set()` is not taken in the drained state: {guard_why}" if resume else
+                       f"no `{'.'.join(d)}.set()` on the branch where the pause condition `{src(iff.test)}` is false"),
                       scenario="results_queue_maxsize=1: the buffer fills, the feeder is paused; after the buffer drained nobody "
                                "resumes it, the remaining input is never sent and imap never returns", line=iff.lineno)
             # the pause test over (len(buffer), bound)
@@ -230,6 +243,99 @@ def r3_pause_resume(prog, rep: Report, pf: PoolFacts):
                 rep.unrec("C02.R3", f, f"pause-test:{ev}", f"pause condition not a comparison of len(buffer) and the bound: {e}")
     if found == 0:
         rep.error("C02.R3: no pause (Event.clear() of an event the feeder waits on) found in the consumers (floor 1)")
+
+
+def _drained_counterexample(conds, ev_path, bounds) -> str:
+    """conds: [(test, wanted truth value)] guarding the resume.  Returns '' when all hold at len(buffer)=0 / event clear for every
+    sampled bound and every valuation of the free atoms, else a description of the falsifying point."""
+    from itertools import product
+    INF = float("inf")
+
+    class Free(Exception):
+        pass
+
+    def val(x, b, free):
+        if isinstance(x, ast.Constant) and isinstance(x.value, (int, float, bool)):
+            return x.value
+        if isinstance(x, ast.Call) and src(x.func) == "len" and len(x.args) == 1:
+            return 0
+        if isinstance(x, ast.Call) and isinstance(x.func, ast.Attribute) and x.func.attr == "is_set" and dotted(x.func.value) == ev_path:
+            return False
+        dd = dotted(x)
+        if dd and dd in bounds:
+            return b
+        if isinstance(x, ast.BinOp):
+            l, r = val(x.left, b, free), val(x.right, b, free)
+            try:
+                if isinstance(x.op, ast.Add): return l + r
+                if isinstance(x.op, ast.Sub): return l - r
+                if isinstance(x.op, ast.Mult): return l * r
+                if isinstance(x.op, ast.FloorDiv): return l // r
+                if isinstance(x.op, ast.Div): return l / r
+                if isinstance(x.op, ast.Mod): return l % r
+            except (ZeroDivisionError, TypeError, ValueError, OverflowError):
+                pass
+            raise Free(src(x))
+        if isinstance(x, ast.UnaryOp) and isinstance(x.op, ast.Not):
+            return not truth(x.operand, b, free)
+        if isinstance(x, ast.UnaryOp) and isinstance(x.op, ast.USub):
+            return -val(x.operand, b, free)
+        if isinstance(x, ast.BoolOp):
+            vs = [truth(v, b, free) for v in x.values]
+            return all(vs) if isinstance(x.op, ast.And) else any(vs)
+        if isinstance(x, ast.Compare):
+            cur = val(x.left, b, free)
+            for op, rr in zip(x.ops, x.comparators):
+                r = val(rr, b, free)
+                fn = {ast.Lt: lambda a, c: a < c, ast.LtE: lambda a, c: a <= c, ast.Gt: lambda a, c: a > c, ast.GtE: lambda a, c: a >= c,
+                      ast.Eq: lambda a, c: a == c, ast.NotEq: lambda a, c: a != c}.get(type(op))
+                if fn is None:
+                    raise Free(src(x))
+                if cur != cur or r != r:        # nan (inf // 2): every ordered comparison is False
+                    res = isinstance(op, ast.NotEq)
+                else:
+                    res = fn(cur, r)
+                if not res:
+                    return False
+                cur = r
+            return True
+        raise Free(src(x))
+
+    def truth(x, b, free):
+        try:
+            return bool(val(x, b, free))
+        except Free:
+            k = src(x)
+            if k not in free:
+                free[k] = None
+                raise
+            return free[k]
+
+    # a finite bound: with an infinite one the pause test never fires and the paused state is unreachable
+    for b in (1, 2, 3, 10, 1000):
+        names: Dict[str, Optional[bool]] = {}
+        # discover free atoms
+        for _ in range(8):
+            try:
+                for t, want in conds:
+                    truth(t, b, names)
+                break
+            except Free:
+                for k in names:
+                    if names[k] is None:
+                        names[k] = False
+        keys = list(names)
+        for bits in product((False, True), repeat=len(keys)):
+            fr = dict(zip(keys, bits))
+            for t, want in conds:
+                try:
+                    got = truth(t, b, fr)
+                except Free as e:
+                    return f"guard `{src(t)}` cannot be evaluated ({e})"
+                if got != want:
+                    extra = "".join(f", `{k}` being {v}" for k, v in fr.items())
+                    return (f"with bound {b}, len(buffer) = 0 and the event clear{extra}, the guard `{src(t)}` is {got}")
+    return ""
 
 
 def _enclosing_if(n):
